@@ -62,7 +62,7 @@ def gen_case(rng, idx, tier):
     rounds = []
     for r in range(rng.randint(2, 3)):
         rounds.append({"patterns": scenario.gen_selection(rng, names), "adv_seed": rng.randrange(1 << 30), "adv_steps": rng.randint(0, len(names) + 2)})
-    return {"sched": sched, "dag": dag, "ticks": ticks, "rounds": rounds, "final_seed": rng.randrange(1 << 30), "first_id": rng.choice([1, 12, 123, 1000])}
+    return {"sched": sched, "dag": dag, "ticks": ticks, "rounds": rounds, "final_seed": rng.randrange(1 << 30), "first_id": rng.choice([0, 0, 1, 12, 123, 1000])}
 
 
 def adversary_step(adv, sim, by, res, p_fail=0.25):
@@ -75,7 +75,17 @@ def adversary_step(adv, sim, by, res, p_fail=0.25):
         sim.start(jid)
         res.count("adv_start")
     elif kind == "end":
-        if adv.random() < p_fail:
+        lingering = [j["id"] for j in sim.jobs().values() if j.get("in_queue")]
+        for lj in lingering:
+            if adv.random() < 0.5:
+                sim.update_job(lj, in_queue=False, code=None)  # the job finally leaves the live queue
+        if sim.sched == "slurm" and adv.random() < 0.2:
+            # finishes successfully, accounting already says COMPLETED, but squeue still lists it as CG
+            scenario.create_outputs(by[sim.jobs()[jid]["name"]])
+            sim.finish(jid, 0)
+            sim.update_job(jid, in_queue=True, code="CG")
+            res.count("adv_ok_lingering")
+        elif adv.random() < p_fail:
             sim.finish(jid, adv.choice([1, 137]))
             res.count("adv_fail")
         else:
